@@ -8,6 +8,8 @@ trap 'rm -rf "$B"' EXIT
 /verif/harness/gen_build.sh $B || exit 2
 (cd ${VERIF_REPO:-/repo} && go test -c -vet=off -tags verif -modfile $B/go.mod -overlay $B/overlay.json -o $B/t.test ./$PKG) || exit 2
 mkdir -p $B/run/fail $B/run/data && cd $B/run
+# exclusions by construction as the driver sets them: every key listed as known (all properties)
+export VERIF_KNOWN_KEYS=${VERIF_KNOWN_KEYS-$(python3 -c "import json;print(','.join(f['key'] for f in json.load(open('/verif/known_findings.json'))['findings'] if f['status']=='known'))")}
 VERIF_STATS=$B/run/stats.json VERIF_FAILDIR=$B/run/fail VERIF_DATADIR=$B/run/data VERIF_REPLAY_DIR=/verif/replays $B/t.test -test.run "$RUN" -rapid.checks $CHECKS -rapid.seed $SEED -test.timeout ${DEV_TIMEOUT:-300s} "$@" 2>&1 | grep -v "rapid\] draw" > $B/out.txt
 rc=${PIPESTATUS[0]}
 head -c ${DEV_HEAD:-6000} $B/out.txt
